@@ -46,6 +46,7 @@ func c19Values(now time.Time) []c19Val {
 		{"[old date]", bson.A{dt(old)}, []int{old}},
 		{"[future date]", bson.A{dt(fut)}, []int{fut}},
 		{"[future, old]", bson.A{dt(fut), dt(old)}, []int{fut, old}},
+		{"[old, same old]", bson.A{dt(old), dt(old)}, []int{old, old}},
 		{"[1,\"x\"]", bson.A{int32(1), "x"}, nil},
 		{"[]", bson.A{}, nil},
 		{"{d: old date}", bD("d", dt(old)), nil},
@@ -102,12 +103,16 @@ func (c c19Case) String() string {
 }
 
 // c19Build creates the engine for a case; d.e always holds the same documents as d.c.
-func c19Build(cs c19Case) (*world.World, error) {
+// With emptyFirst the indexes are created on the empty collections, the database is persisted and reloaded, and only
+// then the documents are inserted.
+func c19Build(cs c19Case, emptyFirst bool) (*world.World, error) {
 	w := world.New()
 	mk := func(coll string, idx []c19Index, extra string) error {
-		for _, d := range cs.docs {
-			if _, err := w.C("d", coll).InsertOne(w.Ctx, d.doc()); err != nil {
-				return err
+		if !emptyFirst {
+			for _, d := range cs.docs {
+				if _, err := w.C("d", coll).InsertOne(w.Ctx, d.doc()); err != nil {
+					return err
+				}
 			}
 		}
 		for _, i := range idx {
@@ -132,6 +137,18 @@ func c19Build(cs c19Case) (*world.World, error) {
 	}
 	if err := mk("e", other, ""); err != nil {
 		return nil, err
+	}
+	if emptyFirst {
+		if err := w.Reload(); err != nil {
+			return nil, fmt.Errorf("reload: %w", err)
+		}
+		for _, coll := range []string{"c", "e"} {
+			for _, d := range cs.docs {
+				if _, err := w.C("d", coll).InsertOne(w.Ctx, d.doc()); err != nil {
+					return nil, err
+				}
+			}
+		}
 	}
 	return w, nil
 }
@@ -226,13 +243,13 @@ func init() {
 			cs := cases[ci]
 			rep := map[string]interface{}{"case": cs.String()}
 			viol := func(class, what string) { r.Violation(class, what+"; "+cs.String(), rep) }
-			for variant := 0; variant < 3; variant++ {
-				w, err := c19Build(cs)
+			for variant := 0; variant < 4; variant++ {
+				w, err := c19Build(cs, variant == 3)
 				if err != nil {
 					r.Broken("build: %v (%s)", err, cs)
 					return
 				}
-				name := []string{"pass", "pass after a pass whose commit failed", "pass after persist-and-reload"}[variant]
+				name := []string{"pass", "pass after a pass whose commit failed", "pass after persist-and-reload", "pass over documents inserted after the indexed but still empty collections were persisted and reloaded"}[variant]
 				switch variant {
 				case 1:
 					// a pass whose commit is rejected by the store changes nothing; the retry behaves like a first pass
@@ -354,14 +371,14 @@ func init() {
 		r.Set("failed_commit_variants", failedCommits)
 		r.Set("reload_variants", reloads)
 		r.Set("distinct_nontrivial", passes-noopPasses)
-		r.Set("grammar_sizes", map[string]interface{}{"field_value_classes": len(vals), "ttl_index_sets": len(ttlSets), "document_sets": len(docSets), "extra_index_kinds": 3, "other_namespace": 2, "variants": 3})
+		r.Set("grammar_sizes", map[string]interface{}{"field_value_classes": len(vals), "ttl_index_sets": len(ttlSets), "document_sets": len(docSets), "extra_index_kinds": 3, "other_namespace": 2, "variants": 4})
 		r.Set("exhaustive", !r.TooMany())
 		var names []string
 		for _, v := range vals {
 			names = append(names, v.name)
 		}
 		r.Set("samples", []interface{}{map[string]interface{}{"value_classes": names}, map[string]interface{}{"example_case": cases[len(cases)/2].String()}})
-		r.Set("rule", "every TTL index set x extra index x second namespace (with/without its own TTL index, same documents) x every document set (1 document: every (t,u) pair of 14 value classes; 2-3 documents: every combination of classes) x {plain pass, pass after a pass whose commit failed, pass after persist-and-reload} through Begin/Transaction.Expire/Commit: a document is removed iff a TTL index of its collection covers a date (or an array containing one) older than the expiry interval; all other documents byte-identical; exactly one delete event per removed document; replaying the events reproduces the contents; indexes coherent; a pass that removes nothing leaves Dirty()==false and the published catalog pointer unchanged; a failed pass changes nothing; earlier catalog snapshots stay byte-identical; an immediate second pass is a no-op; TTL on a compound key is rejected")
+		r.Set("rule", "every TTL index set x extra index x second namespace (with/without its own TTL index, same documents) x every document set (1 document: every (t,u) pair of 14 value classes; 2-3 documents: every combination of classes) x {plain pass, pass after a pass whose commit failed, pass after persist-and-reload, pass over documents inserted after the indexed empty collections were persisted and reloaded} through Begin/Transaction.Expire/Commit: a document is removed iff a TTL index of its collection covers a date (or an array containing one) older than the expiry interval; all other documents byte-identical; exactly one delete event per removed document; replaying the events reproduces the contents; indexes coherent; a pass that removes nothing leaves Dirty()==false and the published catalog pointer unchanged; a failed pass changes nothing; earlier catalog snapshots stay byte-identical; an immediate second pass is a no-op; TTL on a compound key is rejected")
 		r.Assume("dates are 120 min old, 30 min old or 120 min in the future: at least 30 min away from the cut-offs 0 s and 3600 s, so the wall clock cannot flip a decision during the run", "the real expiry goroutine driving this pass is explored under the scheduler by C04 (S7) and C16 (actor T)")
 		if passes < 3000 || removedDocs < 1000 || noopPasses < 300 {
 			r.Broken("vacuity: passes=%d removed=%d noop=%d", passes, removedDocs, noopPasses)
